@@ -134,7 +134,27 @@ fn ss_client_cases(s: &mut Session, cr: &mut Crafter, rng: &mut Rng, cipher: &'s
             match echo {
                 1 => echoed[n - 1] ^= 1,
                 2 => echoed = rng.bytes(n),
+                // salts that differ from the client's own but agree with it in every aggregate a lazy comparison might
+                // use: two bytes exchanged, the same bit flipped in two bytes (same xor, same sum mod 256 for 0x80),
+                // reversed, rotated, first byte only, last byte only
+                3 => echoed.swap(0, n - 1),
+                4 => {
+                    echoed[1] ^= 0x80;
+                    echoed[n - 2] ^= 0x80;
+                }
+                5 => echoed.reverse(),
+                6 => echoed.rotate_left(1),
+                7 => echoed[0] ^= 0x01,
+                8 => {
+                    echoed[3] = echoed[3].wrapping_add(1);
+                    echoed[4] = echoed[4].wrapping_sub(1);
+                }
                 _ => {}
+            }
+            if echo != 0 && echoed == req[..n] {
+                // (the variant happens to be the client's own salt: that would be the honest echo; another client, another salt)
+                s.lines.push("# the salt variant equals the salt: probe repeated".into());
+                continue;
             }
             let payload = rng.bytes(20);
             let now = now_secs();
@@ -160,6 +180,11 @@ fn ss_client_cases(s: &mut Session, cr: &mut Crafter, rng: &mut Rng, cipher: &'s
     }
     probe(s, rng, "request-salt", 0, 1, 1, false);
     probe(s, rng, "request-salt", 0, 1, 2, false);
+    for variant in 3..=8u8 {
+        // (a variant that happens to equal the own salt - a palindrome, equal end bytes - is the honest echo: skipped by
+        // giving every probe a salt of its own, drawn by the client; the chance is negligible and would only repeat)
+        probe(s, rng, "request-salt", 0, 1, variant, false);
+    }
     probe(s, rng, "request-salt", 0, 1, 0, true);
     s.mark_nontrivial();
 }
